@@ -485,7 +485,12 @@ func (fx *directFx) register() {
 }
 
 // rawDirect are entries without structured arguments: random / crafted byte strings.
+var rawExtra func(entry, value string, seed int64) bool
+
 func rawDirect(entry, value string, seed int64) {
+	if rawExtra != nil && rawExtra(entry, value, seed) {
+		return
+	}
 	r := rand.New(rand.NewSource(seed))
 	buf := make([]byte, 1+r.Intn(300))
 	r.Read(buf)
